@@ -13,8 +13,8 @@ pub static PROP: PropDef = PropDef {
     builds: opt_and_dbg,
     max_tape: 24,
     cases: |t| match t {
-        Tier::Quick => 6_000,
-        Tier::Thorough => 200_000,
+        Tier::Quick => 20_000,
+        Tier::Thorough => 400_000,
     },
     fixed,
     check,
